@@ -179,6 +179,7 @@ type gen struct {
 	directSrc    map[string]int // variable -> source line it directly received
 	nlabel       int
 	closureDepth int
+	nenter int
 }
 
 func (g *gen) emit(format string, a ...any) int {
@@ -301,4 +302,34 @@ func (g *gen) weighted(label string, kinds []string) string {
 		}
 	}
 	return kinds[len(kinds)-1]
+}
+
+// enterCall returns "enter(N); " with a fresh id when the profile instruments function entries, "" otherwise.
+func (g *gen) enterCall() string {
+	if !g.p.Enter {
+		return ""
+	}
+	g.nenter++
+	return fmt.Sprintf("enter(%d); ", 2000+g.nenter)
+}
+
+// DeclsWithEnter is Decls with an enter(id) call (ids 900...) at the start of every function body.
+func DeclsWithEnter() string {
+	var out []string
+	id := 900
+	for _, l := range strings.Split(Decls, "\n") {
+		if strings.HasPrefix(l, "func ") {
+			if strings.HasSuffix(l, "{") {
+				id++
+				out = append(out, l, fmt.Sprintf("\tenter(%d)", id))
+				continue
+			}
+			if i := strings.Index(l, "{ "); i >= 0 && strings.HasSuffix(l, "}") {
+				id++
+				l = l[:i] + fmt.Sprintf("{ enter(%d); ", id) + l[i+2:]
+			}
+		}
+		out = append(out, l)
+	}
+	return strings.Join(out, "\n")
 }
